@@ -48,10 +48,13 @@ Proof.
   - inversion H; subst. apply keeps_refl; lia.
 Qed.
 
-Lemma sp_elems x ss pp : sp x = SpOk ss pp ->
+Lemma sp_elems w x ss pp : sp w x = SpOk ss pp ->
   (ss = elems_of x /\ pp = []) \/ (ss = [] /\ pp = elems_of x).
 Proof.
-  destruct x as [s|s|r|]; simpl; try discriminate; destruct (q_rep s); intros H; inversion H; auto.
+  destruct x as [s|s|r|]; simpl; try discriminate.
+  - destruct (q_rep s); intros H; inversion H; auto.
+  - destruct (q_rep s); intros H; inversion H; auto.
+  - destruct (v_nil_ptr w); intros H; inversion H; auto.
 Qed.
 
 Lemma set_keeps w x v path nid x' n' e0 :
@@ -59,10 +62,10 @@ Lemma set_keeps w x v path nid x' n' e0 :
 Proof.
   unfold si_set_with_buffer. intros H.
   destruct path as [|p [|q r]]; try (inversion H; subst; apply keeps_refl; lia).
-  destruct (sp x) as [ss pp| |] eqn:S; try discriminate; try (inversion H; subst; apply keeps_refl; lia).
+  destruct (sp w x) as [ss pp| |] eqn:S; try discriminate; try (inversion H; subst; apply keeps_refl; lia).
   destruct (atoi p) as [idx|]; try (inversion H; subst; apply keeps_refl; lia).
   destruct (idx <? 0); try (inversion H; subst; apply keeps_refl; lia).
-  destruct (sp_elems x ss pp S) as [[E1 E2]|[E1 E2]]; subst ss pp.
+  destruct (sp_elems w x ss pp S) as [[E1 E2]|[E1 E2]]; subst ss pp.
   - destruct ((0 <? zlen (elems_of x)) && (idx <? zlen (elems_of x))).
     + eapply store_keeps; [reflexivity|exact H].
     + simpl in H. inversion H; subst; apply keeps_refl; lia.
@@ -71,11 +74,11 @@ Proof.
     + inversion H; subst; apply keeps_refl; lia.
 Qed.
 
-Lemma copy_to_keeps src x nid x' n' e0 :
-  si_copy_to src x nid = Ret (x', n') e0 -> keeps x nid x' n'.
+Lemma copy_to_keeps w src x nid x' n' e0 :
+  si_copy_to w src x nid = Ret (x', n') e0 -> keeps x nid x' n'.
 Proof.
   unfold si_copy_to. intros H.
-  destruct (sp src) as [ssR ppR| |]; try discriminate; try (inversion H; subst; apply keeps_refl; lia).
+  destruct (sp w src) as [ssR ppR| |]; try discriminate; try (inversion H; subst; apply keeps_refl; lia).
   set (picked := if 0 <? zlen ssR then ssR else if 0 <? zlen ppR then ppR else []) in *.
   assert (P : 0 <= zlen picked) by (unfold zlen; lia).
   destruct x as [d|d|r|]; try (inversion H; subst; apply keeps_refl; lia).
@@ -83,12 +86,13 @@ Proof.
     { destruct (q_rep d); inversion H; auto. }
     destruct K as [K1 K2]; subst x' n'. split; [lia|]. intros e He. simpl in He.
     apply elems_append_all in He. destruct He as [He|He]; [left; exact He|right; eapply in_copies; exact He].
-  - destruct picked; try discriminate. inversion H; subst; apply keeps_refl; lia.
+  - destruct (v_nil_ptr w); [inversion H; subst; apply keeps_refl; lia|].
+    destruct picked; try discriminate. inversion H; subst; apply keeps_refl; lia.
 Qed.
 
-Lemma reset_keeps x nid x' e0 : si_reset x = Ret x' e0 -> keeps x nid x' nid.
+Lemma reset_keeps w x nid x' e0 : si_reset w x = Ret x' e0 -> keeps x nid x' nid.
 Proof.
-  destruct x as [s|s|r|]; simpl; intros H; try discriminate; inversion H; subst; try (apply keeps_refl; lia).
+  destruct x as [s|s|r|]; simpl; [| |destruct (v_nil_ptr w)|]; intros H; try discriminate; inversion H; subst; try (apply keeps_refl; lia).
   split; [lia|]. simpl. intros e [].
 Qed.
 
@@ -99,19 +103,19 @@ Proof.
   - destruct (si_set_with_buffer w x _ [i] (nid + 1)) as [[x' n'] e0|k] eqn:E; cbn [fst h_arg h_nid].
     + apply set_keeps in E. destruct E as [E1 E2]. split; [lia|]. intros e He. destruct (E2 e He); [auto|right; lia].
     + apply keeps_refl; lia.
-  - destruct (si_get_to x [i]); cbn; apply keeps_refl; lia.
+  - destruct (si_get_to w x [i]); cbn; apply keeps_refl; lia.
   - destruct (si_compare w x c r [i]); cbn; apply keeps_refl; lia.
-  - destruct (si_length x p); cbn; apply keeps_refl; lia.
-  - destruct (si_capacity x p); cbn; apply keeps_refl; lia.
-  - destruct (si_loop x it_all []); cbn; apply keeps_refl; lia.
+  - destruct (si_length w x p); cbn; apply keeps_refl; lia.
+  - destruct (si_capacity w x p); cbn; apply keeps_refl; lia.
+  - destruct (si_loop w x it_all []); cbn; apply keeps_refl; lia.
   - destruct (si_deep_equal w x y); cbn; apply keeps_refl; lia.
-  - destruct (si_copy_to src x nid) as [[x' n'] e0|k] eqn:E; cbn [fst h_arg h_nid].
+  - destruct (si_copy_to w src x nid) as [[x' n'] e0|k] eqn:E; cbn [fst h_arg h_nid].
     + eapply copy_to_keeps; exact E.
     + apply keeps_refl; lia.
-  - destruct (si_copy_to x (APtr (nil_sq rr)) nid) as [[d n'] e0|k] eqn:E; cbn [fst h_arg h_nid].
+  - destruct (si_copy_to w x (APtr (nil_sq rr)) nid) as [[d n'] e0|k] eqn:E; cbn [fst h_arg h_nid].
     + apply copy_to_keeps in E. destruct E as [E1 _]. apply keeps_refl; exact E1.
     + apply keeps_refl; lia.
-  - destruct (si_reset x) as [x' e0|k] eqn:E; cbn [fst h_arg h_nid].
+  - destruct (si_reset w x) as [x' e0|k] eqn:E; cbn [fst h_arg h_nid].
     + eapply reset_keeps; exact E.
     + apply keeps_refl; lia.
 Qed.
